@@ -110,7 +110,11 @@ def _excluded_columns(cols):
                     exc = (exc or set()) | {key(other[0])}
                 else:
                     inc = (inc or set()) | {key(other[0])}
-    if exc is None and inc is None and cols[0] in ("list", "tuple") or (cols[0] == "call" and cols[2] and cols[2][0][0] in ("list", "tuple")):
+        elif isinstance(x, tuple) and x and x[0] == "call" and x[1] == ("x", "numpy.setdiff1d") and len(x[2]) >= 2 \
+                and x[2][1][0] in ("list", "tuple", "set"):
+            # np.setdiff1d(np.arange(n_cols), [COL, ..]): all columns but the listed ones
+            exc = (exc or set()) | {key(i) for i in x[2][1][1]}
+    if exc is None and inc is None and cols[0] in ("list", "tuple") or (cols[0] == "call" and cols[1] != ("x", "numpy.setdiff1d") and cols[2] and cols[2][0][0] in ("list", "tuple")):
         lst = cols if cols[0] in ("list", "tuple") else cols[2][0]
         inc = {key(i) for i in lst[1]}
     return exc, inc
